@@ -18,9 +18,12 @@
 (*    isometry claim tensor_split attaches); TLC checks the outcome        *)
 (*    against the documented table Accepts / Shape of C05_Defs.            *)
 (*                                                                         *)
-(* Known deviations of the pinned code are *named* (GenRenormDeviates,     *)
-(* TableDeviation); the main configuration exempts exactly those, the      *)
-(* self-test configurations (MC_selftest_*.cfg) do not and must fail.      *)
+(* The generic renormalisation is transcribed as repaired by /repo commit   *)
+(* b7293c30 (power = `renorm`, like the accelerated version); the pre-fix   *)
+(* arithmetic survives only as the named action GenRenormDeviates, enabled  *)
+(* by PreFix = TRUE in MC_selftest_renorm.cfg, which must fail.  The        *)
+(* remaining known deviations of the dispatch (TableDeviation) are exempted *)
+(* in the main configuration and not in MC_selftest_table.cfg (must fail).  *)
 (***************************************************************************)
 EXTENDS C05_Defs, Json
 
@@ -29,7 +32,8 @@ CONSTANTS MaxVal, MaxLen,     \* spectra: non-increasing sequences over 0..MaxVa
           Renorms,            \* subset of {0,1,2,3} (3 = True)
           CutGrid(_),         \* mode -> set of <<num, den>> cutoffs
           TableMethods, TableAbsorbs,
-          Emit                \* TRUE: print the table cases for the S->C replay (workers = 1)
+          Emit,               \* TRUE: print the table cases for the S->C replay (workers = 1)
+          PreFix              \* TRUE: the generic renormalisation as it was before the "fix:" commit (self-test only)
 
 VARIABLES kind, cs, pc, g, nb, dp
 vars == <<kind, cs, pc, g, nb, dp>>
@@ -54,8 +58,6 @@ NoG  == [n |-> 0, f |-> NoF, err2 |-> 0]
 NoNb == [i |-> 0, ssum |-> 0, n |-> 0, f |-> NoF, err2 |-> 0]
 NoDp == [method |-> "", absorb |-> "", status |-> "", hasL |-> FALSE, hasS |-> FALSE, hasR |-> FALSE,
          claimL |-> FALSE, claimR |-> FALSE]
-NoTrunc == [s |-> <<1>>, mode |-> "abs", cn |-> 0, cd |-> 1, maxb |-> 0, renorm |-> 0]
-NoTable == [method |-> "", absorb |-> "", trunc |-> FALSE]
 
 Init ==
   \/ /\ kind = "trunc" /\ pc = "t0"
@@ -97,22 +99,23 @@ GenCap == /\ kind = "trunc" /\ pc = "t1"
           /\ pc' = "t2" /\ UNCHANGED <<kind, cs, nb, dp>>
 
 GenTruncates == g.n < D
-\* the pinned generic code renormalises with the power of the *cutoff mode* and has no `tot`
-\* for abs/rel: this differs from the requested power `renorm` exactly here
-GenDeviates == GenTruncates /\ RP > 0 /\ (cs.mode \notin SumModes \/ ModePow(cs.mode) # RP)
+\* before the fix the generic code renormalised with the power of the *cutoff mode* and had no `tot`
+\* for abs/rel: different from the requested power `renorm` exactly here
+GenDeviates == PreFix /\ GenTruncates /\ RP > 0 /\ (cs.mode \notin SumModes \/ ModePow(cs.mode) # RP)
 
-\* if n_chi < d: ... if renorm > 0: norm = (tot / csp[n_chi - 1]) ** (1 / pow); error from sabs[n_chi:]
+\* if n_chi < d: ... if renorm > 0: rpow = renorm if renorm >= 2 else 1;
+\*   s = s * (sum(sabs**rpow) / sum(sabs[:n_chi]**rpow)) ** (1 / rpow); error from sabs[n_chi:]
 GenRenorm ==
   /\ kind = "trunc" /\ pc = "t2" /\ ~GenDeviates
-  /\ g' = [g EXCEPT !.n = Min2(g.n, D),
-                    !.err2 = IF GenTruncates THEN DiscP(cs.s, g.n, 2) ELSE 0,
-                    !.f = IF GenTruncates /\ RP > 0
-                          THEN [q |-> ModePow(cs.mode), num |-> Tot(cs.s, ModePow(cs.mode)),
-                                den |-> KeptP(cs.s, g.n, ModePow(cs.mode))]
-                          ELSE NoF]
+  /\ LET q == IF RP >= 2 THEN RP ELSE 1
+     IN  g' = [g EXCEPT !.n = Min2(g.n, D),
+                        !.err2 = IF GenTruncates THEN DiscP(cs.s, g.n, 2) ELSE 0,
+                        !.f = IF GenTruncates /\ RP > 0
+                              THEN [q |-> q, num |-> Tot(cs.s, q), den |-> KeptP(cs.s, g.n, q)]
+                              ELSE NoF]
   /\ pc' = "t3" /\ UNCHANGED <<kind, cs, nb, dp>>
 
-\* named deviation: same code, on the inputs where it does not do what was asked
+\* named deviation (PreFix only): norm = (tot / csp[n_chi - 1]) ** (1 / pow) with pow of the cutoff mode
 GenRenormDeviates ==
   /\ kind = "trunc" /\ pc = "t2" /\ GenDeviates
   /\ g' = [g EXCEPT !.n = Min2(g.n, D),
@@ -281,15 +284,9 @@ FactorOK(f, n) ==
   ELSE f = NoF
 
 RenormLawAccel == DoneT => FactorOK(nb.f, nb.n)
-\* the generic path obeys the law wherever it is not a recorded deviation ...
-RenormLawGeneric == DoneT /\ ~(g.f = Crash \/ (RP > 0 /\ (cs.mode \notin SumModes \/ ModePow(cs.mode) # RP)))
-                      => FactorOK(g.f, g.n)
-\* ... and the two paths agree there
-PathsAgree == DoneT => /\ g.n = nb.n /\ g.err2 = nb.err2
-                       /\ (RP = 0 \/ (cs.mode \in SumModes /\ ModePow(cs.mode) = RP)) => g.f = nb.f
-
-\* self-test: without the exemption TLC must find the deviation
-RenormLawGenericStrict == DoneT => FactorOK(g.f, g.n)
+RenormLawGeneric == DoneT => FactorOK(g.f, g.n)
+\* accelerated and generic agree on everything
+PathsAgree == DoneT => g.n = nb.n /\ g.err2 = nb.err2 /\ g.f = nb.f
 
 \* table: documented combinations are not rejected; what is returned has the documented form and
 \* the isometry claim is sound
